@@ -321,6 +321,12 @@ def main():
                 errc[key] = errc.get(key, 0) + 1
         if any(o and o.get("t") == "frame" and (o["init"] is None or any(v is None for _, v in o["rows"])) for o in c["seen"]):
             nan_cases += 1
+    arrq = {}
+    for c in cases:
+        if c.get("model") is not None and any(s_["s"] in ("arrtable", "arrcov") for s_ in c.get("src", [])):
+            for s_ in C.with_array_queries(c["src"], c["seen"])[0]:
+                if s_["s"] == "query" and s_["q"].startswith("arr"):
+                    arrq[s_["q"]] = arrq.get(s_["q"], 0) + 1
     sizes = {}
     for c in cases:
         n = max([len(o["rows"]) for o in c["seen"] if o and o.get("t") == "frame"] or [0])
@@ -345,7 +351,8 @@ def main():
             "oracle_rejections": len(oracle_fail),
             "distribution": {"generator_tags": tagc, "flavours": flavc, "statements": stmtc, "errors_observed": errc,
                              "cases_with_undefined_region": nan_cases, "max_steps_histogram": {str(k): v for k, v in sorted(sizes.items())},
-                             "tolerant_compare_cases": sum(1 for c in cases if c.get("mode") == "tol")},
+                             "tolerant_compare_cases": sum(1 for c in cases if c.get("mode") == "tol"),
+                             "collection_level_model_queries": arrq},
             "known_findings_hit": known_hits,
             "exhaustive": False,
         },
